@@ -135,6 +135,17 @@ def family_pair_executions(a, b, every=1, offset=0):
             yield [init(2)] + il
 
 
+def burst_executions(emu, every=1, offset=0):
+    """A dense burst (12 notes of three programs at one instant: close to 500 register writes on one chip before any
+    audio is rendered) on a FRESH chip object, while another instance creates / plays / closes around it: what the
+    cores keep in write queues must not let heap left behind by anybody reach the chip."""
+    ha = [create(emu, 44100, 1)] + [on(40 + 3 * i, i % 3) for i in range(12)] + [gen(600), gen(600)]
+    hb = [create(emu, 44100, 1), on(64, 1), gen(300), {"e": "Close"}]
+    for q, il in enumerate(interleavings([ha, hb])):
+        if q % every == offset % every:
+            yield [init(2)] + il
+
+
 def port_pair_executions(a, b, every=1, offset=0):
     """Two instances play songs that name the same two MIDI ports (FF 09) in opposite order: the port -> channel block
     map belongs to one instance and one song; all interleavings of load / play / play."""
@@ -162,6 +173,8 @@ def exhaustive_executions(quick, seed):
         hs += list(family_pair_executions(a, b, 1 if not quick else 5, seed + a))
     for (a, b) in [(0, 0), (0, 2), (4, 5)]:
         hs += list(port_pair_executions(a, b, 1 if not quick else 3, seed + b))
+    for e in EMUS:
+        hs += list(burst_executions(e, 60 if not quick else 400, seed + e))
     trip = [(1, 8, 4), (8, 4, 1), (4, 1, 8), (0, 2, 5), (3, 6, 2), (2, 5, 0)]
     for (a, b, c) in trip:
         hs += list(triple_executions(a, b, c, 40 if not quick else 240, seed + a))
